@@ -12,7 +12,7 @@
    in the list of s, no other writer of the set (t, b), a guard in the list of t, f <> isSystem, unique
    store names, parents are root stores). *)
 From Coq Require Import List NArith Bool.
-From Storage Require Import Base.Bytes Store.Model Store.FrameProofs Store.TxProofs Store.FkProofs Store.FkDelete Store.FkWf Store.FkChildGuard Store.FkChildCascade.
+From Storage Require Import Base.Bytes Store.Model Store.FrameProofs Store.TxProofs Store.FkProofs Store.FkDelete Store.FkWf Store.FkChildGuard Store.FkChildCascade Store.FkCascadeLoop.
 Import ListNotations.
 
 (* After any history of committed / rolled-back transactions (creates, full and field-restricted
@@ -181,3 +181,22 @@ Theorem reachc_iff_reach : forall sch st a n,
   wf_casc_b sch = true -> (reachc sch st a n <-> reach sch st a n).
 Proof. exact reachc_iff_reach_wf. Qed.
 Print Assumptions reachc_iff_reach.
+
+(* ---- referrers reachable over more than one cascade path (diamonds) ---- *)
+
+(* The loop of a cascading delete applies the delete only to entities that are, at their turn, present referrers: its
+   result is the same for any two delete functions that agree on such arguments.  So an entity of the referrer list that a
+   NESTED cascade removed before its turn (own o <- item p <- item s and o <- s: the delete of p takes s along) can never
+   make the cascade fail - whatever a delete of a vanished entity would answer. *)
+Theorem cascade_loop_current_referrers_only : forall sch (del1 del2 : st_ev -> name -> id -> res st_ev) rs f i cands cur,
+  (forall c x, casc_matches sch rs f i (fst c) x = true -> del1 c rs x = del2 c rs x) ->
+  cascade_loop sch del1 rs f i cands cur = cascade_loop sch del2 rs f i cands cur.
+Proof. exact cascade_loop_ext_lemma. Qed.
+Print Assumptions cascade_loop_current_referrers_only.
+
+(* ... in particular the delete is never asked for an absent entity *)
+Theorem cascade_never_deletes_absent : forall sch (del other : st_ev -> name -> id -> res st_ev) rs f i cands cur,
+  cascade_loop sch del rs f i cands cur =
+  cascade_loop sch (fun c s x => if present sch (fst c) s x then del c s x else other c s x) rs f i cands cur.
+Proof. exact cascade_loop_present_only_lemma. Qed.
+Print Assumptions cascade_never_deletes_absent.
